@@ -100,7 +100,14 @@ class SigmaConversionError(SigmaError):
         super().__init__(*args, source=source, **kwargs)
 
     def __str__(self) -> str:
-        return super().__str__() + " in rule " + str(self.rule)
+        # The rule is named by title, id and name. Its complete representation would put
+        # internal, randomly named detections and unordered sets into the message.
+        description = repr(getattr(self.rule, "title", None))
+        for attribute in ("id", "name"):
+            value = getattr(self.rule, attribute, None)
+            if value is not None:
+                description += f", {attribute} {value}"
+        return super().__str__() + " in rule " + description
 
 
 class SigmaDetectionError(SigmaError):
